@@ -210,7 +210,11 @@ bool Importer::ImporterImpl::checkUnitsForCycles(const UnitsPtr &units, History 
         return true;
     }
 
-    return checkUnitsForCycles(importedUnits, history, unitsOnPath);
+    bool cyclesFound = checkUnitsForCycles(importedUnits, history, unitsOnPath);
+
+    history.pop_back();
+
+    return cyclesFound;
 }
 
 bool Importer::ImporterImpl::checkComponentForCycles(const ComponentPtr &component, History &history)
